@@ -57,6 +57,9 @@ def compare(a, b):
     return bool(dev <= 1e-13), dev
 
 
+GENERIC = {"kTe": 0.35, "CTi": 0.9, "CTe": 1.2, "deltaRTe": 1.2, "deltaRN0": 2.5, "deltaR": 5.0, "vMin": -6.1, "n": 2}
+
+
 def setup_job(comm, cfile, layout, folder):
     from pygyro.initialisation.setups import setupCylindricalGrid
     with sl.warnings.catch_warnings():
@@ -126,7 +129,7 @@ def run(ctx):
         jobs = []
         for iota in (0.8, 0.0):
             cfile = scenarios.write_constants(os.path.join(work, "c_%s.json" % iota), npts=NPTS, iotaVal=iota,
-                                              eps=0.05 if iota else 0.01, m=3 if iota else 2)
+                                              eps=0.05 if iota else 0.01, m=3 if iota else 2, **({} if iota else GENERIC))
             for g in grids:
                 jobs.append((iota, g, {"work": os.path.join(work, "i%s_%d_%d" % (iota, g[0], g[1])), "cfile": cfile, "S": 5, "nprocs": g,
                                        "tEnd": nsteps * dt, "folder": "F", "policy": rng.choice(["asc", "desc", "random", "rr"]),
@@ -183,7 +186,9 @@ def run(ctx):
         # the three starting layouts on every process grid
         from pygyro.initialisation import setups
         orig = setups.compute_2d_process_grid
-        cfile = os.path.join(work, "c_0.8.json")
+        # constants in general position: the defaults make several distinct constants equal (kTe = kTi, CTe = CTi = 1,
+        # deltaRTe = deltaRTi, vMin = -vMax), which hides a constant mistaken for its twin
+        cfile = scenarios.write_constants(os.path.join(work, "c_generic.json"), npts=NPTS, iotaVal=0.8, eps=0.05, m=3, **GENERIC)
         try:
             for g in grids:
                 setups.compute_2d_process_grid = lambda npts, size, _g=tuple(g): _g
